@@ -248,6 +248,13 @@ Script random_script(Rng &r, const GenFeatures &f, int n, int id_base) {
         q.version = (f.http10 && r.chance(1, 6)) ? "HTTP/1.0" : "HTTP/1.1";
         std::string host = "h" + rand_token(r, 1, 6) + ".example";
         for (auto &c : host) c = (char) tolower((unsigned char) c);
+        if (f.wild_path && r.chance(1, 10)) {
+            // a bracketed host literal whose length sits on the usual buffer-size edges (scenarios without ground truth only)
+            static const int EDGE[] = {0, 1, 2, 15, 16, 17, 38, 39, 40, 44, 45, 46, 47, 48, 63, 64, 65, 127, 128, 129, 255, 256, 257};
+            int L = r.chance(1, 4) ? (int) r.range(0, 80) : EDGE[r.below(sizeof EDGE / sizeof *EDGE)];
+            static const char HX[] = "0123456789abcdefABCDEF::::..%";
+            host = "["; for (int i = 0; i < L; i++) host.push_back(HX[r.below(sizeof HX - 1)]); host += "]";
+        }
         std::string path = "/id" + strfmt("%d", id) + "/" + rand_token(r, 0, 8);
         if (f.wild_path && r.chance(1, 2)) {
             // pieces the path decoder treats specially; no '?', '#', space or control byte, so the target stays one request-line token
